@@ -230,12 +230,18 @@ func genC09(r *rng, i int) history {
 		}
 		return o
 	}
+	// something to remove first: two or three stored regular objects
+	for _, a := range perm()[:3] {
+		if a < 4 {
+			h.Ops = append(h.Ops, opT{Op: "put", A: a})
+		}
+	}
 	for len(h.Ops) < n {
 		x := r.intn(100)
 		switch {
 		case x < 30:
 			a := r.intn(nobj)
-			if len(h.Ops) < 4 || r.intn(3) == 0 {
+			if r.intn(3) == 0 {
 				a = r.intn(4)
 			}
 			h.Ops = append(h.Ops, cut(opT{Op: "put", A: a, Fail: r.intn(12) == 0}))
